@@ -31,6 +31,7 @@ import (
 	"github.com/echovault/sugardb/internal"
 	"github.com/echovault/sugardb/internal/constants"
 	"github.com/echovault/sugardb/internal/eviction"
+	"github.com/echovault/sugardb/verifhook"
 )
 
 // SwapDBs swaps every TCP client connection from database1 over to database2.
@@ -38,6 +39,7 @@ import (
 // This only affects TCP connections, it does not swap the logical database currently
 // being used by the embedded API.
 func (server *SugarDB) SwapDBs(database1, database2 int) {
+	verifhook.Yield("ks.swapdbs")
 	// If the databases are the same, skip the swap.
 	if database1 == database2 {
 		return
@@ -78,6 +80,7 @@ func (server *SugarDB) SwapDBs(database1, database2 int) {
 // Flush flushes all the data from the database at the specified index.
 // When -1 is passed, all the logical databases are cleared.
 func (server *SugarDB) Flush(database int) {
+	verifhook.Yield("ks.flush")
 	server.storeLock.Lock()
 	defer server.storeLock.Unlock()
 
@@ -117,6 +120,7 @@ func (server *SugarDB) Flush(database int) {
 }
 
 func (server *SugarDB) keysExist(ctx context.Context, keys []string) map[string]bool {
+	verifhook.Yield("ks.keysExist")
 	server.storeLock.RLock()
 	defer server.storeLock.RUnlock()
 
@@ -133,6 +137,7 @@ func (server *SugarDB) keysExist(ctx context.Context, keys []string) map[string]
 }
 
 func (server *SugarDB) getExpiry(ctx context.Context, key string) time.Time {
+	verifhook.Yield("ks.getExpiry")
 	server.storeLock.RLock()
 	defer server.storeLock.RUnlock()
 
@@ -147,6 +152,7 @@ func (server *SugarDB) getExpiry(ctx context.Context, key string) time.Time {
 }
 
 func (server *SugarDB) getValues(ctx context.Context, keys []string) map[string]interface{} {
+	verifhook.Yield("ks.getValues")
 	server.storeLock.Lock()
 	defer server.storeLock.Unlock()
 
@@ -198,6 +204,7 @@ func (server *SugarDB) getValues(ctx context.Context, keys []string) map[string]
 }
 
 func (server *SugarDB) setValues(ctx context.Context, entries map[string]interface{}) error {
+	verifhook.Yield("ks.setValues")
 	server.storeLock.Lock()
 	defer server.storeLock.Unlock()
 
@@ -250,6 +257,7 @@ func (server *SugarDB) setValues(ctx context.Context, entries map[string]interfa
 }
 
 func (server *SugarDB) setExpiry(ctx context.Context, key string, expireAt time.Time, touch bool) {
+	verifhook.Yield("ks.setExpiry")
 	server.storeLock.Lock()
 	defer server.storeLock.Unlock()
 
@@ -341,14 +349,19 @@ func (server *SugarDB) getState() map[int]map[string]interface{} {
 			server.stateCopyInProgress.Store(true)
 			break
 		}
+		verifhook.Spin("getState.wait")
 	}
+	verifhook.Note("statecopy.begin")
 	data := make(map[int]map[string]interface{})
 	for db, store := range server.store {
+		verifhook.Yield("getState.db")
 		data[db] = make(map[string]interface{})
 		for k, v := range store {
 			data[db][k] = v
 		}
 	}
+	verifhook.Note("statecopy.end")
+	verifhook.Yield("getState.done")
 	server.stateCopyInProgress.Store(false)
 	return data
 }
@@ -356,6 +369,7 @@ func (server *SugarDB) getState() map[int]map[string]interface{} {
 // updateKeysInCache updates either the key access count or the most recent access time in the cache
 // depending on whether an LFU or LRU strategy was used.
 func (server *SugarDB) updateKeysInCache(ctx context.Context, keys []string) (int64, error) {
+	verifhook.Yield("ks.updateKeysInCache")
 	database := ctx.Value("Database").(int)
 	var touchCounter int64
 
@@ -677,6 +691,7 @@ func (server *SugarDB) evictKeysWithExpiredTTL(ctx context.Context) error {
 }
 
 func (server *SugarDB) randomKey(ctx context.Context) string {
+	verifhook.Yield("ks.randomKey")
 	server.storeLock.RLock()
 	defer server.storeLock.RUnlock()
 
